@@ -196,13 +196,17 @@ func deployFSChainFor(v int) {
 // NeoFS Alphabet): RoleManagement puts a designation in force from the NEXT block, and the contract asks for
 // the keys of index+1 = the block carrying the update. So the designation made in the block just before the
 // update is the one that counts: the new majority is authorised, the replaced one is not.
-// param 0: committee size; param 1: blocks between the designation and the update (0: the very next block).
+// param 0: committee size; param 1: blocks between the designation and the update (0: the very next block);
+// param 2: the contract (8 Processing, which asks RoleManagement itself; 4 NeoFS, which goes through
+// common.InnerRingNodes).
 func VerifC16GateAfterDesignation() {
 	vCommittee(vParam(0))
 	v := vInt("deployedVersion")
 	cur := vRepoVersion()
 	vSetIR(3)
-	deployOld(8, v) // processing
+	which := vParam(2)
+	name := c16Names[which]
+	deployOld(which, v)
 	replaced := vIRMajorityAcct()
 	vSetIRNamed("nir", 3)
 	if vParam(1) > 0 {
@@ -213,7 +217,7 @@ func VerifC16GateAfterDesignation() {
 	vSign(replaced, byReplaced)
 	vSign(current, byCurrent)
 	vSign(vAcct("stranger"), true)
-	done, _ := vUpdateFrom("processing", v)
+	done, _ := vUpdateFrom(name, v)
 	vAssert(!done || (byCurrent && v >= 15004 && v < cur), "C16/update-completes-only-with-the-required-majority-and-a-supported-older-version")
 	vAssert(done || !(byCurrent && v >= 15004 && v < cur), "C16/update-from-a-supported-version-completes-with-the-required-majority")
 	vRequire(done, "update-completed-under-the-new-inner-ring")
